@@ -176,7 +176,7 @@ def check_spectrum(ctx, c):
     desc = {"name": name, "dim": int(model.dim), "len_scale": float(model.len_scale), "opt": {o: float(getattr(model, o)) for o in model.opt_arg},
             "rescale": float(model.rescale)}
     for r in (0.0, 0.41 * unit, 1.7 * unit):
-        if not abs(rho(r) - float(ocov.correlation(desc, r))) <= 1e-9:
+        if not abs(rho(r) - float(ocov.correlation(desc, r))) <= 1e-9 + ocov.evaluation_slack(desc):
             ctx.fail({"what": "correlation!=closed-form", "model": name, "dim": dim}, f"r={r}")
             return
     sup = ocov.support(desc)
@@ -288,7 +288,7 @@ def check_matrices(ctx, c):
         with np.errstate(all="ignore"):
             dfun = max(abs(float(np.asarray(model.correlation(np.array([r])))[0]) - float(ocov.correlation(desc, float(r)))) for r in sample)
         ctx.resolve("entry_evaluation_error", dfun)
-        if dfun <= 1e-9 and ev[0] >= -(8 * pts.shape[1] * EPS * lmax + 4 * pts.shape[1] * float(model.var) * dfun):
+        if dfun <= 1e-9 + ocov.evaluation_slack(desc) and ev[0] >= -(8 * pts.shape[1] * EPS * lmax + 4 * pts.shape[1] * float(model.var) * dfun):
             ctx.event("eigenvalue_within_entry_rounding")
             return
         ctx.fail({"what": "covariance-matrix-indefinite", "model": name, "dim": dim, "points": kind},
